@@ -843,7 +843,7 @@ func (h *harness) streamLongLines(parser *conffile.DefaultFileParser) {
 			}
 			text := "first=1\n# head comment\n" + long + "\n# after = the long line\nmid=2\n! bang %s\nplain words after\nlast=3\n"
 			w := writeCase{text: text, kvs: map[string]string{"mid": "changed", "added": "new"}, viaSetValues: li%2 == 0}
-			w.noModel = n > 20000
+			w.noModel = false // the compiled model is tail-recursive where it matters (Write.lean, @[csimp])
 			h.rep.Count(fmt.Sprintf("write:long-line:%s", kind))
 			h.oneWrite(parser, w, false, 1000)
 		}
